@@ -61,8 +61,26 @@ def run_one(h, scratch, logdir, sched, tier):
     logfile = os.path.join(logdir, h.name + ".log")
     exp = getattr(h, "exp_gb", 3)
     sched.acquire(exp)
+    extra = list(h.args)
+    uw_note = None
     try:
-        rc, wall = K.run_cargo_kani(crate_dir, target, h.name, logfile, h.timeout, h.mem_gb, h.args, qname=h.qname)
+        if getattr(h, "unwindset", None):
+            # per-loop bounds: resolve CBMC loop identifiers from the GOTO binary of this very build
+            rc0, _ = K.run_cargo_kani(crate_dir, target, h.name, logfile + ".codegen", 900, 0, list(h.args) + ["--only-codegen"], qname=h.qname)
+            leaf = (h.qname or h.name).split("::")[-1]
+            gb = K.find_goto_binary(target, leaf)
+            if rc0 != 0 or not gb:
+                uw_note = "could not locate the GOTO binary to resolve loop identifiers"
+            else:
+                chosen, unmatched, nloops = K.resolve_unwindset(gb, h.unwindset)
+                if unmatched:  # not fatal: a too-small bound is still reported by the unwinding assertions
+                    K.log("[unwindset] %s: no loop matches %r" % (h.name, unmatched))
+                extra += ["-Z", "unstable-options", "--cbmc-args", "--unwindset", ",".join("%s:%d" % kv for kv in sorted(chosen.items()))]
+        if uw_note:
+            rc, wall = 2, 0.0
+            open(logfile, "w").write("INSTRUMENTATION: " + uw_note + "\n")
+        else:
+            rc, wall = K.run_cargo_kani(crate_dir, target, h.name, logfile, h.timeout, h.mem_gb, extra, qname=h.qname)
     finally:
         sched.release(exp)
     text = open(logfile, errors="replace").read()
@@ -154,7 +172,7 @@ def main():
 
     t_start = time.time()
     scratch = os.environ.get("VERIF_SCRATCH") or "/var/tmp/sonic-verif.%d" % os.getpid()
-    logdir = os.path.join(VERIF, "logs", "%s-%s" % (prop, tier))
+    logdir = os.path.join(VERIF, "logs", "%s-%s" % (prop if not a.dev else "DEV%d" % os.getpid(), tier))
     shutil.rmtree(logdir, ignore_errors=True)
     os.makedirs(logdir, exist_ok=True)
 
